@@ -659,7 +659,7 @@ pub fn check(ctx: &Ctx) {
     ctx.run_space(
         "created_and_verified",
         true,
-        "14 signature kinds (0x00, 0x01, 0x10-0x13 over user ids, 0x13 over a user attribute, third-party 0x13, 0x18, 0x28, 0x19, 0x1F, 0x20, 0x30) x 9 signer keys (v4/v6; Ed25519, Ed448, ECDSA P-256/P-521, EdDSA-legacy, RSA v4 and v6 with SHA-224 among the hashes) x hashes x objects (documents incl. empty and mixed line endings; user ids of length 0, 1, 25, 255, 256 (70000 thorough); attributes) x hashed-area shapes (default, notation data sizing the area to 100..65400 octets - thorough: every size 100..200 and 8300..8345 -, critical bit): created through the public signing API with a recording SigningKey, re-parsed and verified with a recording VerifyingKey; both digests = RFC 9580 5.2.4 digest computed from the wire bytes",
+        "14 signature kinds (0x00, 0x01, 0x10-0x13 over user ids, 0x13 over a user attribute, third-party 0x13, 0x18, 0x28, 0x19, 0x1F, 0x20, 0x30) x 9 signer keys (v4/v6; Ed25519, Ed448, ECDSA P-256/P-521, EdDSA-legacy, RSA v4 and v6 with SHA-224 among the hashes) x hashes x objects (documents incl. empty and mixed line endings; user ids of length 0, 1, 25, 255, 256 (70000 thorough); attributes) x hashed-area shapes (default, text-carrying subpackets with multi-byte characters, notation data sizing the area to 100..65400 octets - thorough: every size 100..200 and 8300..8345 -, critical bit): created through the public signing API with a recording SigningKey, re-parsed and verified with a recording VerifyingKey; both digests = RFC 9580 5.2.4 digest computed from the wire bytes",
         specs.into_par_iter(),
         run_created,
     );
